@@ -65,6 +65,50 @@ Theorem C02_never_another_value : forall o l wb lay n inside v' toks n' tr rest 
   v = v' /\ rest2 = rest.
 Proof. exact C02_agree. Qed.
 
+
+(* The leading minus (repaired defect): a '-' that is not followed by a NAME / NUMBER / STRING token is never
+   accepted -- for any fuel the parse is an error (with at least one unit of fuel: the SyntaxError at the token
+   behind the minus).  [closer (text (cur ts)) = None] need not be assumed: it follows from the token being "-". *)
+Theorem C02_minus_needs_number : forall o wb ts ts1,
+  cur_is ts "-" = true -> advance wb ts = POk ts1 ->
+  in_types (ty (cur ts1)) [NAME; NUMBER; STRING] = false ->
+  forall fuel, exists e, parse_value fuel o wb ts = PErr e.
+Proof. exact minus_needs_number. Qed.
+Theorem C02_minus_needs_number_exact : forall o wb ts ts1 f,
+  cur_is ts "-" = true -> advance wb ts = POk ts1 ->
+  in_types (ty (cur ts1)) [NAME; NUMBER; STRING] = false ->
+  parse_value (S f) o wb ts = PErr (ESyntax (srow (cur ts1))).
+Proof. exact minus_needs_number_S. Qed.
+(* conversely a value that starts with '-' is the negated atom read by the basic-type loop *)
+Theorem C02_minus_value_is_basic : forall fuel o wb ts v rest,
+  cur_is ts "-" = true -> parse_value fuel o wb ts = POk (v, rest) ->
+  exists ts1, advance wb ts = POk ts1 /\ in_types (ty (cur ts1)) [NAME; NUMBER; STRING] = true /\
+              basic_loop (S (List.length ts1)) o wb ts1 "-" = POk (v, rest).
+Proof. exact minus_value_is_basic. Qed.
+(* hence the first token decides: a bracket, a sigil, or a basic value *)
+Theorem C02_value_first_token : forall fuel o wb ts v rest,
+  parse_value fuel o wb ts = POk (v, rest) ->
+  closer (text (cur ts)) <> None \/ cur_is ts "@" = true \/ cur_is ts "%" = true \/
+  maybe_basic o wb ts = POk (Some (v, rest)).
+Proof. exact value_first_token. Qed.
+
+(* Refutation of the code before the repair ([parse_value_orig] = parse_value over [maybe_basic_orig], which
+   returned "not a basic type" after having consumed the '-'): the token stream of "-@x" yields the reference x,
+   the minus sign silently dropped; the repaired parser raises the SyntaxError. *)
+Definition C02_minus_ref_stream : list token :=
+  [ {| ty := OP; text := "-"; srow := 1; scol := 4; erow := 1; ecol := 5 |};
+    {| ty := OP; text := "@"; srow := 1; scol := 5; erow := 1; ecol := 6 |};
+    {| ty := NAME; text := "x"; srow := 1; scol := 6; erow := 1; ecol := 7 |};
+    {| ty := NEWLINE; text := ""; srow := 1; scol := 7; erow := 1; ecol := 8 |};
+    {| ty := ENDMARKER; text := ""; srow := 2; scol := 0; erow := 2; ecol := 0 |} ].
+Example C02_orig_minus_dropped :
+  parse_value_orig (value_fuel C02_minus_ref_stream) [] false C02_minus_ref_stream
+  = POk (OT "Ref" [OS "x"; OB false], skipn 3 C02_minus_ref_stream).
+Proof. vm_compute. reflexivity. Qed.
+Example C02_repaired_minus_rejected :
+  parse_value (value_fuel C02_minus_ref_stream) [] false C02_minus_ref_stream = PErr (ESyntax 1).
+Proof. vm_compute. reflexivity. Qed.
+
 Print Assumptions C02_complete.
 Print Assumptions C02_complete_value_fuel.
 Print Assumptions C02_paren_is_value.
@@ -72,3 +116,9 @@ Print Assumptions C02_one_tuple.
 Print Assumptions C02_sound.
 Print Assumptions C02_sound_exact.
 Print Assumptions C02_never_another_value.
+Print Assumptions C02_minus_needs_number.
+Print Assumptions C02_minus_needs_number_exact.
+Print Assumptions C02_minus_value_is_basic.
+Print Assumptions C02_value_first_token.
+Print Assumptions C02_orig_minus_dropped.
+Print Assumptions C02_repaired_minus_rejected.
